@@ -210,8 +210,26 @@ func (d *DefaultMetricLogWriter) removeDeprecatedFiles() error {
 func (d *DefaultMetricLogWriter) nextFileNameOfTime(time uint64) (string, error) {
 	dateStr := util.FormatDate(time)
 	filePattern := d.baseFilename + "." + dateStr
+	// Only this log's own files of that day count, "<base>.<date>" and "<base>.<date>.<n>": the file
+	// of an application whose name merely contains ours must not decide on (and make us re-create)
+	// one of our file names.
 	list, err := listMetricFilesConditional(d.baseDir, filePattern, func(fn string, p string) bool {
-		return strings.Contains(fn, p)
+		if !strings.HasPrefix(fn, p) {
+			return false
+		}
+		rest := fn[len(p):]
+		if rest == "" {
+			return true
+		}
+		if rest[0] != '.' || len(rest) == 1 {
+			return false
+		}
+		for _, c := range rest[1:] {
+			if c < '0' || c > '9' {
+				return false
+			}
+		}
+		return true
 	})
 	if err != nil {
 		return "", err
